@@ -7,6 +7,7 @@ mod codec;
 mod envelope;
 mod keys;
 mod merkle;
+mod procs;
 mod rig;
 mod srv;
 mod stats;
@@ -56,6 +57,11 @@ fn main() {
         "srv" => srv::run(&ctx),
         "sign" => keys::run_sign(&ctx),
         "cfg" => cfg::run(&ctx),
+        "startup" => procs::run_startup(&ctx),
+        "workers" => procs::run_workers(&ctx),
+        "shutdown" => procs::run_shutdown(&ctx),
+        "client-real" => procs::run_client_real(&ctx),
+        "procleak" => procs::run_procleak(&ctx),
         "envelope" => envelope::run(&ctx),
         "client-honest" => client::run_honest(&ctx),
         "client-forged" => client::run_forged(&ctx),
